@@ -171,7 +171,10 @@ def run_property(prop, tier='quick', repo=REPO):
         return 2
     cx = Cx(lib, binf, tier)
     results = []
-    for rule in table.rules:
+    from rules import common as _common
+    side = Rule('S-AWAIT', 'side', 'every future created from a crate-local async fn is awaited in the creating body (or is a select! branch)',
+                lambda cx_, rec_: _common.s_await(cx_.F, rec_), floor=1)
+    for rule in list(table.rules) + [side]:
         if rule.tier == 'thorough' and tier != 'thorough':
             continue
         rec = Rec(prop, rule)
